@@ -28,6 +28,15 @@ def g_merge(prop, bound, arity, sample=None, seed=0):
                 exhaustive=ex, tasks=[dict(module='contracts.merge', want=[prop], args=dict(shapes_=list(c))) for c in combos])
 
 
+def g_merge_laws(prop, bound, bound3, sample3=None, seed=0):
+    shs = harness.shapes(*bound)
+    T = [dict(shapes_=[s], mode=m) for s in shs for m in ('unary', 'idem', 'neutral_l', 'neutral_r', 'roundtrip', 'roundtrip_sources')]
+    combos, ex = _combos(bound3, 3, sample3, seed)
+    T += [dict(shapes_=list(c), mode='foldlaw') for c in combos]
+    return dict(name='merge laws', bound=bound_text(bound) + '; fold law on triples with ' + bound_text(bound3) + ('' if ex else ' (%d triples drawn with VERIF_SEED)' % len(combos)),
+                exhaustive=ex, tasks=[dict(module='contracts.merge', want=[prop], args=a) for a in T])
+
+
 def g_mask(prop, bound, nnames, mode='mask', hide=True):
     shs = harness.shapes(*bound)
     return dict(name='mask/%s/%d-names' % (mode, nnames), bound=bound_text(bound) + '; %d masked names, n symbolic%s' % (nnames, ', 16 hide_* combinations symbolic' if (hide and mode == 'mask') else ''),
@@ -67,7 +76,13 @@ def g_retrieval(prop):
     for kind in ('function', 'instance'):
         for node in ('FunctionDef', 'Assign'):
             T.append(dict(mode='forged', kind=kind, node=node))
-    T += [dict(mode='af_ast'), dict(mode='as_forged'), dict(mode='fwd'), dict(mode='sphinx'), dict(mode='recursion')]
+    for same in (0, 1):
+        for part in (0, 1):
+            for two, one in ((0, 0), (0, 1), (1, 0)):
+                T.append(dict(mode='fwd', variant=dict(both_calls_same_callee=same, written_as_functools_partial_0=part,
+                                                       two_values_already_in_star_args=two, one_value_already_in_star_args=one)))
+    T += [dict(mode='af_ast'), dict(mode='as_forged'), dict(mode='sphinx'), dict(mode='recursion'),
+          dict(mode='fwd_method'), dict(mode='fwd_super'), dict(mode='spec_forwards'), dict(mode='af_partial')]
     return dict(name='retrieval', bound='none (tier P): the inspected object is symbolic - presence of every attribute the units touch in the '
                 'instance dict / on the type, every external outcome (inspect.signature, getsource, ast.parse, forger, hint, descriptors) '
                 'and every exception class are solver variables; kinds of object: function, callable instance; class of the parsed node enumerated',
@@ -117,6 +132,10 @@ def g_modifiers(prop, bound, q):
         for m in ('_kwoargs_start', '_posoargs_end', '_autokwoargs'):
             for n in (0, 1) if q else (0, 1, 2):
                 T.append(dict(mode=m, shape=sh, npos=n))
+        for n in (0, 1, 2):
+            for ret in (0, 1):
+                T.append(dict(mode='annotate', shape=sh, npos=n, nkwo=ret))
+    T.append(dict(mode='desc_get', shape=(0, 1, 0, 0, 0)))
     return dict(name='modifiers', bound=bound_text(bound) + '; <=2 names selected as positional-only and <=2 as keyword-only (3 in total at most; the NAMES are symbolic: any parameter, each other, or none); '
                 'calls: 0..positionals+1 positional arguments, <=%d keywords with symbolic names' % (1 if q else 2),
                 exhaustive=True, tasks=[dict(module='contracts.modifiers', want=[prop], args=a, cross=False) for a in T])
@@ -169,7 +188,7 @@ def plan(prop, tier, seed=0):
         G += [g_merge(prop, B2, 2), g_merge(prop, B3, 3, 400 if q else 12000, seed)]
     elif prop == 'C09':
         G += [g_merge(prop, B2, 2), g_merge(prop, B3, 3, 200 if q else 6000, seed), g_mask(prop, B1, 0, 'zero'),
-              g_embed(prop, B3 if q else B2, 'embed')]
+              g_embed(prop, B3 if q else B2, 'embed'), g_merge_laws(prop, B1, B3, 300 if q else 6000, seed)]
     elif prop == 'C02':
         G += [g_embed(prop, B2, 'embed'), g_embed(prop, (1, 1, 0, 1) if q else B3, 'fold', 300 if q else 6000, seed)]
     elif prop == 'C03':
@@ -190,6 +209,11 @@ def plan(prop, tier, seed=0):
             G += [g_partial(prop, B1, 1), g_partial(prop, B1 if q else (1, 2, 1, 3), 0, 'plain')]
     if prop == 'C12':
         G += [g_modifiers(prop, (1, 2, 1, 3) if q else (1, 3, 1, 4), q)]
+    if prop == 'C11':
+        g = g_modifiers(prop, (1, 2, 1, 3), True)
+        g['tasks'] = [t for t in g['tasks'] if t['args']['mode'] == 'annotate']
+        g['name'] = 'modifiers.annotate'
+        G += [g]
     if prop == 'C08':
         g = g_modifiers(prop, (1, 2, 1, 3), True)
         g['tasks'] = [t for t in g['tasks'] if t['args']['mode'] == 'prepare']
@@ -213,6 +237,11 @@ def plan(prop, tier, seed=0):
         G += [g_forwards(prop, BS, 1, 60 if q else 1200, seed)]      # narrowing: every element of discovery only accepts what the def accepts
     if prop in ('C04', 'C05', 'C06', 'C07', 'C15', 'C16', 'C13'):
         G += [g_retrieval(prop)]
+    if prop == 'C19':
+        g = g_retrieval(prop)
+        g['tasks'] = [t for t in g['tasks'] if t['args']['mode'] == 'af_partial']
+        g['name'] = 'discovery through partials'
+        G += [g]
     if prop in ('C01', 'C02', 'C04', 'C08', 'C09', 'C10', 'C11', 'C15', 'C16', 'C19'):
         G += [g_concile(prop)]       # the contract used as call summary, discharged on the real body
     return G
